@@ -7,9 +7,28 @@
    Spec: Spec/Money.v (conv, upd, request, table_after, last_write).
    Definitions used below and made in Proofs/C06.v: state_after (fold of step), updates_of / resolved
    (the update requests of a history / the accepted ones by currency code), money_fields (the two
-   fields the conversion rule binds), table_codes, qconfig (the tables over exact rationals). *)
+   fields the conversion rule binds), table_codes, qconfig (the tables over exact rationals), ev (value of
+   the single result line of Api.execute on default_config), plain_spellings / suffix_spellings /
+   through_rate / alias_literal_ok / pair_ok / conversion_words / rated_codes (the finite end-to-end
+   tables), example_history / brief.
+
+   KNOWN FINDINGS (known_findings.json; refuted witnesses: C06_literal_limits).  The conversion, arithmetic
+   and history theorems are unrestricted.  The literal clause ("every literal spelling") is restricted:
+   - C06-K1 class C06-suffix-symbol-drops-rest: C06_alias_literals states the form amount+suffix+blank+symbol
+     (`3M <symbol>`) only as a whole line; followed by anything, the rest of the line is dropped
+     (C06_literal_limits, conjuncts 1-2).  C06_money_body_token shows why: the token ends at the suffix.
+   - C06-K2 class C06-symbol-not-alias: C06_alias_literals quantifies over the one-character keys of
+     currency_alias only ($, EUR and TRY signs); any other currency symbol of the table is not denotable
+     (C06_literal_limits, conjunct 3; C06_money_body_declines: read_currency refuses it).
+   - C06-K3 class C06-nonlatin-alias: C06_alias_literals covers an alias as a literal only when it is
+     ASCII letters (is_word) or one character; the Cyrillic alias resolves by name (C06_alias_resolves,
+     conjunct 5 of C06_literal_limits) but never lexes in a literal (conjunct 4).
+   - C06-K4 class C06-code-is-timezone: C06_literal_suffix_spellings assumes
+     assoc_mem code (cf_timezones default_config) = false (TMT, WST excluded; conjuncts 6-7);
+     C06_all_pairs_executed ranges over the rated codes of the table, none of which is a time-zone name
+     (C06_reachable_all_pairs is about the rule function, not the lexer, and is unrestricted). *)
 From Coq Require Import QArith Qcanon Floats.
-From SC.Model Require Import Base Num NumF64 NumQ Types Config Case Chrono Parser RuleFns Items Lexer Api Run64 Corr.
+From SC.Model Require Import Base Num NumF64 NumQ Types Config Case Chrono Parser RuleFns Items UiTokens Rx Rules Lexer Api Run64 Corr.
 From SC.Spec Require Import Money.
 From SC.Gen Require Import RustConsts ConfigData.
 From SC.Proofs Require Import C06.
@@ -249,6 +268,105 @@ Theorem C06_reachable_all_pairs : forall ck ops (vs : vars float) (a : float) A 
   convert_money cfg vs (money_fields a A name) = Ok (Some (TMoney (fmul (do_division a rA) rB) B)).
 Proof. exact reachable_all_pairs. Qed.
 
+(* ---------- literals ---------- *)
+
+(* the money regex parser, every number algebra: a capture whose PRICE reads as a decimal and whose
+   CURRENCY is a name read_currency knows yields the token Money(price x multiplier of the suffix, that
+   currency); nothing else yields a token *)
+Theorem C06_money_body_token : forall (G : Type) (NG : Num G) (cfg : config G) line c cp st psp price0 csp code b e0,
+  cap_name c cp "PRICE" = Some psp ->
+  read_decimal cfg (slice line psp) = Some price0 ->
+  cap_name c cp "CURRENCY" = Some csp ->
+  read_currency cfg (slice line csp) = Some code ->
+  cap_get cp 0 = Some (b, e0) ->
+  let notation := cap_name c cp "NOTATION" in
+  let price := match notation with
+               | Some nsp => fmul price0 (notation_mult NOTATION_MONEY (slice line nsp))
+               | None => price0 end in
+  let e := match notation with Some nsp => snd nsp | None => snd csp end in
+  exists st', money_body cfg line c cp st = Ok st' /\
+    (collides (ts_infos st) b e = false ->
+       ts_infos st' = ts_infos st ++ [{| ti_start := b; ti_end := e; ti_ty := Some (TMoney price code);
+                                         ti_text := slice line psp; ti_active := true |}]) /\
+    (collides (ts_infos st) b e = true -> st' = st).
+Proof. exact (@money_body_token). Qed.
+
+Theorem C06_money_body_declines : forall (G : Type) (NG : Num G) (cfg : config G) line c cp st psp,
+  cap_name c cp "PRICE" = Some psp ->
+  (read_decimal cfg (slice line psp) = None \/
+   cap_name c cp "CURRENCY" = None \/
+   (exists csp, cap_name c cp "CURRENCY" = Some csp /\ read_currency cfg (slice line csp) = None)) ->
+  money_body cfg line c cp st = Ok st.
+Proof. exact (@money_body_declines). Qed.
+
+Theorem C06_money_suffixes : forall (G : Type) (NG : Num G),
+  notation_mult NOTATION_MONEY (s "k") = fofZ 1000 /\
+  notation_mult NOTATION_MONEY (s "K") = fofZ 1000 /\
+  notation_mult NOTATION_MONEY (s "M") = fofZ 1000000 /\
+  notation_mult (F:=G) NOTATION_MONEY [] = f1.
+Proof. exact (@money_suffixes). Qed.
+
+(* end to end (Api.execute at binary64 on the loaded configuration; `ev text` = the value of the one
+   result line): every currency code of the table x the spellings `25 code`, `25code`, `25  CODE`,
+   `25CODE`, `-25 code`, `12,5 code`, `1.250,75 CODE` denotes exactly that amount in that currency *)
+Theorem C06_literal_spellings : forall code mk x,
+  In code (table_codes default_config) -> In (mk, x) plain_spellings ->
+  opt_token_exact (ev (mk code)) (Some (TMoney x code)) = true.
+Proof. exact literal_spellings. Qed.
+
+(* ... with a suffix (`25k code`, `25K  CODE`, `25M code`): that amount, passed through the rate of
+   the currency when it has one ((x / r) * r at binary64), for every code that is not also the name
+   of a time zone *)
+Theorem C06_literal_suffix_spellings : forall code mk x,
+  In code (table_codes default_config) -> assoc_mem code (cf_timezones default_config) = false ->
+  In (mk, x) suffix_spellings ->
+  opt_token_exact (ev (mk code)) (Some (TMoney (through_rate default_config code x) code)) = true.
+Proof. exact literal_suffix_spellings. Qed.
+
+(* every alias made of ASCII letters after the amount (also in upper case, also after a suffix),
+   every one-character alias (currency symbol) before and after the amount, with and without suffix *)
+Theorem C06_alias_literals : forall kv, In kv (cf_currency_alias default_config) -> alias_literal_ok kv = true.
+Proof. exact alias_literals. Qed.
+
+(* end to end: all ordered pairs of rated currencies x every conversion word of English:
+   `100 a <word> b` evaluates to Money((100 / rate a) * rate b, B), bit for bit *)
+Theorem C06_all_pairs_executed : forall w A B,
+  In w conversion_words -> In A rated_codes -> In B rated_codes -> pair_ok w A B = true.
+Proof. exact all_pairs_executed. Qed.
+
+Theorem C06_pairs_nonvacuous : (1 <=? length conversion_words)%nat && (2 <=? length rated_codes)%nat = true.
+Proof. exact pairs_nonvacuous. Qed.
+
+(* ---------- non-vacuity, and where the literal clause does not hold ---------- *)
+Theorem C06_examples :
+  map brief (run CK0 init_state example_history) =
+  [ inr (Some true); inr (Some true); inr (Some false);
+    inl (Some (TMoney 40%float (s "TRY")));
+    inl (Some (TMoney 14%float (s "USD")));
+    inl (Some (TMoney 6%float (s "USD")));
+    inl (Some (TMoney 30%float (s "USD")));
+    inl (Some (TMoney 3%float (s "EUR")));
+    inl (Some (TNumber 4%float Decimal));
+    inl (Some (TMoney 7%float (s "EUR")));
+    inr (Some true);
+    inl (Some (TMoney 2%float (s "TRY")));
+    inl (Some (TMoney 10%float (s "USD"))) ].
+Proof. exact examples. Qed.
+
+(* known limits (reported; kept under the correspondence check by the generator): after
+   `<amount><suffix> <symbol>` the rest of the line is dropped; a currency symbol that is not a
+   configured alias and the alias written in Cyrillic letters never make a money literal; a code that
+   is also a time-zone abbreviation is read as the time zone after a suffixed amount *)
+Theorem C06_literal_limits :
+  ev (s "1k $ * 2") = Some (TMoney 1000%float (s "USD")) /\
+  ev (s "1M " ++ [8364%N] ++ s " + 5cny") = Some (TMoney 1000000%float (s "EUR")) /\
+  ev ([163%N] ++ s "10") = Some (TNumber 0%float Decimal) /\
+  ev (s "10 " ++ [1083%N; 1074%N]) = Some (TNumber 10%float Decimal) /\
+  read_currency default_config [1083%N; 1074%N] = Some (s "BGN") /\
+  ev (s "25k tmt") = None /\ ev (s "25 tmt") = Some (TMoney 25%float (s "TMT")).
+Proof. exact literal_limits. Qed.
+
+
 Print Assumptions C06_convert_exact.
 Print Assumptions C06_convert.
 Print Assumptions C06_convert_id.
@@ -281,3 +399,13 @@ Print Assumptions C06_rates_nonzero_Q.
 Print Assumptions C06_all_pairs.
 Print Assumptions C06_all_pairs_f64.
 Print Assumptions C06_reachable_all_pairs.
+Print Assumptions C06_money_body_token.
+Print Assumptions C06_money_body_declines.
+Print Assumptions C06_money_suffixes.
+Print Assumptions C06_literal_spellings.
+Print Assumptions C06_literal_suffix_spellings.
+Print Assumptions C06_alias_literals.
+Print Assumptions C06_all_pairs_executed.
+Print Assumptions C06_pairs_nonvacuous.
+Print Assumptions C06_examples.
+Print Assumptions C06_literal_limits.
